@@ -5,6 +5,8 @@ set -u
 cd /verif
 for f in mutants/*/*.diff; do
   id=$(basename $(dirname $f))
+  # MUTMX_IDS: only the diffs of these properties (space separated)
+  [ -z "${MUTMX_IDS:-}" ] || case " $MUTMX_IDS " in *" $id "*) ;; *) continue;; esac
   scr=/tmp/mutmx-$$
   base=""
   for c in $(git -C /repo log --format=%h -n 140); do
